@@ -522,6 +522,20 @@ def image_def(draw, rnd, inline, adversarial=False):
         # encoded bytes ending in CR before a bare LF would be ambiguous in the same way as raw data
         if enc[-1:] == b"\r" and im["eol"] == b"\n":
             im["eol"] = b"\r\n"
+    if inline and im["chain"][:1] == ["ASCII85Decode"] and rnd.random() < 0.5:
+        # ASCII85 data ends at its own EOD marker `~>`: the characters E I followed by white space inside it are
+        # ordinary digits (white space is ignored), not the end of the image
+        i = enc.find(b"EI", 0, max(0, len(enc) - 2))
+        if i < 0 and im["chain"] == ["ASCII85Decode"] and len(data) >= 4:
+            # the four bytes whose group starts with the digits E I
+            v = (36 * 85 + 40) * 85 ** 3 + rnd.randrange(85 ** 3)
+            data = v.to_bytes(4, "big") + data[4:]
+            im["data"] = data
+            enc = F.a85_encode(data, None)
+            i = enc.find(b"EI", 0, len(enc) - 2)
+        if i >= 0:
+            enc = enc[:i + 2] + rnd.choice([b"\n", b" ", b"\r\n"]) + enc[i + 2:]
+            im["a85_ei"] = True
     im["encoded"] = enc
     cs = "DeviceRGB" if kind == "rgb8" else "DeviceGray"
     im["cs_written"] = (ABBR_CS[cs] if im.get("abbr_cs") else cs) if inline else cs
@@ -547,6 +561,9 @@ def _image_classes(im, classes):
             nt = True
         if not ch or len(ch) >= 2:
             nt = True
+    if im.get("a85_ei"):
+        classes.add("inline-a85-contains-EI-ws")
+        nt = True
     if im["inline"]:
         classes.add("inline")
         classes.add("inline-keys:" + ("abbr" if im["abbr"] else "full"))
